@@ -8,6 +8,10 @@ from ..cfg import CFG, Flow
 POL = 'cassandra/policies.py'
 
 
+class _Stale(Exception):
+    pass
+
+
 def evaluate(expr, env):
     """evaluate a yield condition under env: {'is_up': bool, 'dist': 'LOCAL'|'REMOTE'|'IGNORED', 'in_replicas': bool}"""
     e = expr
@@ -22,6 +26,8 @@ def evaluate(expr, env):
     if isinstance(e, ast.Compare) and len(e.ops) == 1:
         l, r = src(e.left), src(e.comparators[0])
         if l.startswith('child.distance(') and r.startswith('HostDistance.'):
+            if l != 'child.distance(%s)' % env.get('var', '?'):
+                raise _Stale(l)
             v = env['dist'] == r.split('.')[1]
             return v if isinstance(e.ops[0], ast.Eq) else (not v if isinstance(e.ops[0], ast.NotEq) else None)
         if r == 'replicas' and l in ('host', 'replica'):
@@ -62,18 +68,28 @@ def check(chk):
             if len(i.body) == 1 and isinstance(i.body[0], ast.Expr) and isinstance(i.body[0].value, ast.Yield) and src(i.body[0].value.value) == var:
                 return i.test
         raise AnalysisError('loop over %s is not `if cond: yield %s`' % (src(loop.iter), var))
-    c1 = yield_cond(first[0], src(first[0].target))
-    c2 = yield_cond(second[0], src(second[0].target))
+    v1, v2 = src(first[0].target), src(second[0].target)
+    c1 = yield_cond(first[0], v1)
+    c2 = yield_cond(second[0], v2)
+    # every term of a loop's condition is about the host that loop is looking at
+    chk.rule('C22.subject', 'each loop measures is_up / distance / membership of its own loop variable')
+    for lp_, var_, cond_ in ((first[0], v1, c1), (second[0], v2, c2)):
+        stale = sorted(set(src(x) for x in ast.walk(cond_) if isinstance(x, ast.Name) and x.id in (v1, v2) and x.id != var_))
+        chk.judge(not stale, 'C22.subject', lp_, 'loop over %s tests only `%s`' % (src(lp_.iter)[:40], var_),
+                  'the condition reads %s, the variable of the other loop (left over from its last iteration): whether a host of the wrapped plan is yielded depends on the last replica, '
+                  'so remote replicas are dropped or local ones repeated' % stale)
+        if stale:
+            return
     for in_rep, is_up, dist in itertools.product((True, False), (True, False), ('LOCAL', 'REMOTE')):
         env = {'in_replicas': in_rep, 'is_up': is_up, 'dist': dist}
-        y1 = evaluate(c1, env) if in_rep else False
-        y2 = evaluate(c2, env)
+        y1 = evaluate(c1, dict(env, var=v1)) if in_rep else False
+        y2 = evaluate(c2, dict(env, var=v2))
         n = int(bool(y1)) + int(bool(y2))
         label = 'host of the wrapped plan: replica=%s is_up=%s distance=%s' % (in_rep, is_up, dist)
         chk.judge(n == 1, 'C22.partition', f, label,
                   '%s is yielded %s (first loop: %s, second loop: %s)' % (label, 'twice' if n == 2 else 'by neither loop: it is lost from the plan', y1, y2))
     for is_up, dist in itertools.product((True, False), ('LOCAL', 'REMOTE', 'IGNORED')):
-        y1 = evaluate(c1, {'in_replicas': True, 'is_up': is_up, 'dist': dist})
+        y1 = evaluate(c1, {'in_replicas': True, 'is_up': is_up, 'dist': dist, 'var': v1})
         chk.judge(bool(y1) == (is_up and dist == 'LOCAL'), 'C22.first', first[0], 'first loop, replica is_up=%s distance=%s -> %s' % (is_up, dist, 'yield' if y1 else 'skip'),
                   'the first loop must yield exactly the replicas that are up and LOCAL')
     # order: first loop precedes the second in the same block
@@ -90,16 +106,27 @@ def check(chk):
     good = isinstance(top, ast.If) and src(top.test) == 'query and query.keyspace' and 'keyspace = query.keyspace' in src(top.body[0]) and 'keyspace = working_keyspace' in src(top.orelse[0])
     chk.judge(good, 'C22.source', f, 'keyspace = statement keyspace if set, else the working keyspace', 'keyspace selection changed')
     chk.judge('routing_key = query.routing_key' in s, 'C22.source', f, 'routing key taken from the statement', 'routing key source changed')
-    # fallbacks
+    # fallbacks (decided from the branch facts on the paths that reach each loop, whatever the nesting of the tests)
     g = CFG(f)
     fl = Flow(g, 0, lambda n, c: c)
     plain = [n for n in g.nodes if n.kind == 'for_iter' and 'child.make_query_plan(keyspace, query)' in src(n.ast.iter) and n.ast not in second]
-    conds = set()
+    if not plain:
+        raise AnalysisError('TokenAwarePolicy.make_query_plan: no fallback loop over the wrapped plan')
+    ok_plain = True
     for n in plain:
-        for fa, _ in fl.at(n):
-            conds.add((fa.knows('query is None'), fa.knows('routing_key is None'), fa.knows('keyspace is None')))
-    chk.judge(len(plain) == 2 and (True, None, None) in conds and any(c[0] is False and (c[1] is True or c[2] is True) for c in conds), 'C22.fallback', f,
-              'no query, or no routing key / keyspace: every host of the wrapped plan is yielded unchanged', 'fallback arms changed: %s' % sorted(str(c) for c in conds))
+        states = list(fl.at(n))
+        ok_plain = ok_plain and bool(states) and all(fa.knows('query is None') is True or fa.knows('routing_key is None') is True or fa.knows('keyspace is None') is True or fa.knows('query') is False
+                                                    for fa, _c in states)
+    chk.judge(ok_plain, 'C22.fallback', f, 'the wrapped plan is used as it is only without a query, a routing key or a keyspace',
+              'a fallback loop is reached although query, routing key and keyspace are all present: replicas are not tried first')
+    tok_nodes = [n for n in g.nodes if n.kind == 'for_iter' and n.ast in (first[0], second[0])]
+    ok_tok = len(tok_nodes) == 2
+    for n in tok_nodes:
+        states = list(fl.at(n))
+        ok_tok = ok_tok and bool(states) and all(fa.knows('routing_key is None') is False and fa.knows('keyspace is None') is False and
+                                                 (fa.knows('query is None') is False or fa.knows('query') is True) for fa, _c in states)
+    chk.judge(ok_tok, 'C22.fallback', f, 'the replica-first plan is built only with a query, a routing key and a keyspace',
+              'the replica lookup is reached without a routing key / keyspace / query: get_replicas(None, ...) or an AttributeError on None')
     for n in plain:
         b = n.ast.body
         chk.judge(len(b) == 1 and isinstance(b[0], ast.Expr) and isinstance(b[0].value, ast.Yield) and src(b[0].value.value) == src(n.ast.target), 'C22.fallback', n.ast,
